@@ -83,6 +83,7 @@ type DataSource interface {
 	ProcessSegments(*dataBlock) error
 	RunDoneActivate()
 	RunDoneDeactivate()
+	RunDoneChan() <-chan struct{}
 	ShouldAutoRestart() bool
 	getPulseLengths() (int, int, error)
 	ArchiveDataBlock(int, *os.File, string) error
@@ -94,12 +95,22 @@ func (ds *AnySource) RunDoneActivate() {
 	defer ds.sourceStateLock.Unlock()
 	ds.sourceState = Active
 	ds.runDone.Add(1)
+	ds.runDoneChan = make(chan struct{})
+}
+
+// RunDoneChan returns a channel that is closed when the current (or most recent) run is done.
+// It lets a goroutine wait for "request accepted by the core loop OR run over" in one select.
+func (ds *AnySource) RunDoneChan() <-chan struct{} {
+	ds.sourceStateLock.Lock()
+	defer ds.sourceStateLock.Unlock()
+	return ds.runDoneChan
 }
 
 // RunDoneDeactivate calls Done on ds.runDone, this should only be called (by defer) in Start
 func (ds *AnySource) RunDoneDeactivate() {
 	ds.sourceStateLock.Lock()
 	ds.sourceState = Inactive
+	close(ds.runDoneChan)
 	ds.runDone.Done()
 	ds.sourceStateLock.Unlock()
 }
@@ -330,6 +341,7 @@ type AnySource struct {
 	sourceState         SourceState
 	sourceStateLock     sync.Mutex // guards sourceState
 	runDone             sync.WaitGroup
+	runDoneChan         chan struct{} // closed when the run is done (see RunDoneChan)
 	readCounter         int
 	channelsPerPixel    int
 }
